@@ -7,8 +7,15 @@
 //
 // A state is the event history reaching it. Successors are produced by building a fresh tracker,
 // replaying the history and applying one more event. States are merged on a canonical key of the
-// reference-model state (message identities renamed by rank, sessions sorted); a second pass runs
-// every history up to a smaller depth without merging.
+// reference-model state (message identities renamed by rank, sessions sorted). Two kinds of search
+// run: "closed" searches (undelivered updates per session bounded, no depth bound: they run until
+// the frontier is empty) and a depth-bounded search without that bound. A further pass runs every
+// history up to a smaller depth without merging (fresh connection per session), and a small
+// command matrix checks which commands may carry EXPUNGE (NOOP/CHECK vs FETCH/STORE/SEARCH).
+//
+// Violations are collected per key with the smallest history (shorter, then lexicographically
+// smaller), re-executed 5 times, and stored as replay files; `--replay f` re-executes the stored
+// history printing model vs implementation after every step.
 package main
 
 import (
@@ -1231,6 +1238,7 @@ func bfs(name string, bd bounds, depth int, workers []*worker, total *stats, tot
 	}
 	depthReached := 0
 	perLevel := []int64{states}
+	left := len(frontier)
 	for d := 0; d < depth && len(frontier) > 0; d++ {
 		var next int64 = -1
 		var wg sync.WaitGroup
@@ -1292,22 +1300,33 @@ func bfs(name string, bd bounds, depth int, workers []*worker, total *stats, tot
 			}
 			return ents[i].evIdx < ents[j].evIdx
 		})
-		nf := make([]hist, len(ents))
+		nNew := len(ents)
+		states += int64(nNew)
+		perLevel = append(perLevel, int64(nNew))
+		if nNew > 0 {
+			depthReached = d + 1
+		}
+		if nNew > 0 && d+1 >= 5 {
+			en := ents[nNew/2]
+			x := frontier[en.parent].extend(en.ev)
+			run.Sample("bfs-state-"+name, map[string]interface{}{"history": x.String(), "key": modelOnly(x).key()})
+		}
+		fmt.Fprintf(os.Stderr, "bfs[%s] depth %d: new states=%d total=%d transitions=%d t=%s\n", name, d+1, nNew, states, trans, time.Since(t0).Round(time.Millisecond))
+		left = nNew
+		if d+1 == depth {
+			// depth bound reached: the states of the last level are counted, not expanded, so
+			// their histories are not materialised
+			frontier = nil
+			break
+		}
+		nf := make([]hist, nNew)
 		for i, en := range ents {
 			nf[i] = frontier[en.parent].extend(en.ev)
 		}
 		frontier = nf
-		states += int64(len(nf))
-		perLevel = append(perLevel, int64(len(nf)))
-		if len(nf) > 0 {
-			depthReached = d + 1
-			x := nf[len(nf)/2]
-			run.Sample("bfs-state-"+name, map[string]interface{}{"history": x.String(), "key": modelOnly(x).key()})
-		}
-		fmt.Fprintf(os.Stderr, "bfs[%s] depth %d: new states=%d total=%d transitions=%d t=%s\n", name, d+1, len(nf), states, trans, time.Since(t0).Round(time.Millisecond))
 	}
 	return bfsResult{ran: true, bd: bd, depthBound: depth, states: states, trans: trans, nontrivial: nontrivial, depthReached: depthReached, perLevel: perLevel,
-		frontierEmpty: len(frontier) == 0, frontierLeft: len(frontier), wall: time.Since(t0)}
+		frontierEmpty: left == 0, frontierLeft: left, wall: time.Since(t0)}
 }
 
 func main() {
@@ -1325,14 +1344,15 @@ func main() {
 		return
 	}
 	bd := bounds{maxN: 4, maxS: 2, maxPending: 0}
-	// Sizes measured on 16 cores: quick ~4 M transitions, thorough ~23 M (a depth-8 search with 3
-	// sessions is 50 M transitions / 30 M states and does not fit the budget on a loaded machine;
-	// a closed search with 3 sessions and <= 4 undelivered updates is 163 M transitions, 18 min).
+	// Sizes measured on 16 cores: quick ~4 M transitions (30-95 s depending on machine load),
+	// thorough ~68 M (the depth-8 search with 3 sessions alone is 50 M transitions / 30 M states,
+	// 5-9 min). A closed search with 3 sessions and <= 4 undelivered updates per session was run
+	// once: 16.7 M states, 163 M transitions, frontier empty at depth 12, 18 min - too big for a tier.
 	depth, ndDepth := 7, 4
 	closedCfgs := []bounds{{maxN: 4, maxS: 2, maxPending: 3}}
 	if run.Thorough() {
 		bd.maxS = 3
-		depth, ndDepth = 7, 5
+		depth, ndDepth = 8, 5
 		closedCfgs = []bounds{{maxN: 4, maxS: 3, maxPending: 3}, {maxN: 4, maxS: 2, maxPending: 4}}
 	}
 	if *depthFlag > 0 {
